@@ -33,8 +33,15 @@ META = {
 
 
 class FakeRuntime:
+    """Stands in for datetime.timedelta (whole seconds): same attribute protocol, symbolic-friendly arithmetic."""
     def __init__(self, s): self.s = s
     def total_seconds(self): return self.s
+    @property
+    def days(self): return self.s // 86400
+    @property
+    def seconds(self): return self.s % 86400
+    @property
+    def microseconds(self): return 0
     def __str__(self): return 'rt'
 
 
